@@ -205,3 +205,21 @@ func WIFValid(s string) (netID byte, key []byte, compressed bool, ok bool) {
 	}
 	return b[0], b[1:33], compressed, true
 }
+
+// HardenedChildScalar computes only the private part of a hardened child (no point multiplication):
+// used to scan very many children cheaply for scalars of a particular shape.
+func HardenedChildScalar(parentK *big.Int, chain []byte, i uint32) (k *big.Int, childChain []byte, ok bool) {
+	data := append([]byte{0}, pad32(parentK.Bytes())...)
+	data = append(data, ser32(i)...)
+	I := hmac512(chain, data)
+	il := new(big.Int).SetBytes(I[:32])
+	if il.Cmp(SecN) >= 0 {
+		return nil, nil, false
+	}
+	k = new(big.Int).Add(il, parentK)
+	k.Mod(k, SecN)
+	if k.Sign() == 0 {
+		return nil, nil, false
+	}
+	return k, I[32:], true
+}
